@@ -13,7 +13,7 @@ CHECKS = {
         "second password can only verify when it equals the first up to the format's documented equivalence.",
    note="Trusted: z3; the idealisation of every primitive (digests, HMAC, PBKDF, DES, bcrypt, scrypt) as a collision-free "
         "uninterpreted function - collision resistance is assumed, the library's own glue is what is decided; the C07/C08 text "
-        "environment. Outside: mysql323, sun_md5_crypt, argon2 (reasons in the evidence), longer passwords, NUL bytes (C05)."),
+        "environment. mysql323 (an arithmetic hash with real collisions) is compared with MySQL's routine instead. Outside: sun_md5_crypt, argon2 (reasons in the evidence), longer passwords, NUL bytes (C05)."),
  "C03": dict(engine="E1-zshadow", category="other", design_ref="DESIGN.md §11.7 C03",
    technique="symbolic execution of safe_crypt and every os_crypt wrapper against an arbitrary crypt() answer; inductive step over backend states (z3)",
    text="crypt() is replaced by a stub that may answer anything: for all password bytes and every answer (none, correct shape "
@@ -21,7 +21,8 @@ CHECKS = {
         "crypt()'s digest for the requested configuration, the builtin result, or refuses. set_backend/has_backend/"
         "get_backend are checked as one step from every valid backend state of unrelated and derived hashers.",
    note="Trusted: z3; scratch hashers with fake backends for the switching step. The real backends of this host are compared on "
-        "a finite battery only (stated as enumeration). Outside: digests vs standards (C02/C11), argon2."),
+        "a finite battery only, and the first call of every hasher/backend pair runs in a fresh process (both stated as "
+        "enumeration). Outside: digests vs standards (C02/C11), argon2."),
  "C06": dict(engine="E1-zshadow", category="other", design_ref="DESIGN.md §4 C06",
    technique="symbolic execution of the real generators (z3): bijection / clipping validity queries over all rng outputs",
    text="Bounded symbolic check: for every size/alphabet in the stated list the solver shows, for all outputs of the random "
@@ -57,7 +58,8 @@ CHECKS = {
         "hard limits, the default is clipped into the window, generated costs stay inside window and hard limits, the update flag is "
         "exactly 'outside the window or scheme flag', and the parent class dictionaries are untouched; scrypt block_size/parallelism.",
    note="Trusted: z3; rng stub contract; message formatting of symbolic ints replaced by placeholders inside norm_integer/using. "
-        "Outside: float/percent vary_rounds; ident/variant settings."),
+        "Finite supplement: isolation[hasher] - every setting keyword of every hasher leaves the original's class state untouched, parent "
+        "and derived hashers do not influence each other in either order of use. Outside: float/percent vary_rounds."),
  "C04": dict(engine="E1-zshadow", category="other", design_ref="DESIGN.md §4 C04",
    technique="exhaustive path exploration of the real CryptContext constructor and decision methods over symbolic limits + z3 entailment against a policy model",
    text="Real CryptContext objects are built from templates whose per-scheme and per-category cost limits/defaults, category "
@@ -143,7 +145,9 @@ CHECKS = {
         "points of the real load/update/copy; after each failing path 15 observables (exports, scheme lists, defaults per category, "
         "record/identify bindings, decisions on probe hashes) equal their values before the attempt. 18 kinds of invalid change at every "
         "position; dict round trips with symbolic integer options; config-key render/parse inverse over symbolic names.",
-   note="Trusted: z3; the scratch failing scheme. INI text and float vary_rounds only at enumerated values. Outside: ConfigParser internals."),
+   note="Trusted: z3; the scratch failing scheme. Finite supplements (stated as enumeration): configuration shapes with empty/falsy/"
+        "float values through six routes, and histories (handler objects through copy/using/update; previous x next configurations). "
+        "Outside: ConfigParser internals."),
  "C08": dict(engine="E1-zshadow", category="other", design_ref="DESIGN.md §4 C08",
    technique="path exploration of the real identify/verify/needs_update code on hash strings with one arbitrary symbolic character per position (SRegex for compiled patterns, exact int() model) + z3",
    text="For every hasher in scope and every position of 1-3 valid hash strings, one character is replaced by / inserted as an "
